@@ -104,6 +104,15 @@ def run(ctx):
                 for backing in ("pipe", "file"):
                     cops.append(op(backing, 10, 1, 1, "-", 0, 0, blob))
                     want_ops.append(op("pipe", 10, 1, 1, "-", 0, 0, first[0] + tail + b"last\n").replace("reader.lines", "reader.spec.lines"))
+    # a compressed stream that begins at an offset of a regular file (the tool was handed a descriptor positioned behind a header):
+    # aligned and unaligned offsets, the page before it holding plain text or bytes that look like another magic number
+    payload = b"".join(b"payload line %d\r\n" % i for i in range(300)) + b"last, unterminated"
+    for fmt_, encf in (("gz", gzip.compress), ("bz2", bz2.compress), ("xz", lzma.compress)):
+        for start in (0, 37, 4096, 4097, 12287):
+            for filler in (b"h", b"BZh9", b"\x1f\x8b\x08\x00"):
+                head = (filler * (start // len(filler) + 1))[:start]
+                cops.append(op("file", 10, 1, 1, "-", rng.randrange(3), start, head + encf(payload)))
+                want_ops.append(op("pipe", 10, 1, 1, "-", 0, 0, payload).replace("reader.lines", "reader.spec.lines"))
     ca = pvlib.run_lines(impl, cops, env=pvlib.san_env(), timeout=600)
     cw = pvlib.run_lines(pvlib.PVDRIVER, want_ops)
     ctx.count("reader.compressed", len(cops), cops)
